@@ -595,6 +595,34 @@ def run_pair(case, st):
                          '%r vs %r' % (ba[:120], bb[:120]), case)
             return
 
+    # the same section object listed twice equals two separate equal
+    # sections, and must serialise like them
+    if a.changes:
+        twin_a = trees.build(case['a'])
+        twin_b = trees.build(case['a'])
+        first_desc = dict(case['a'])
+        first_desc['changes'] = [case['a']['changes'][0]]
+        extra = trees.build(first_desc).changes[0]
+        twin_a.changes.append(extra)                # a separate equal change
+        twin_b.changes.append(twin_b.changes[0])    # the same object again
+
+        if trees.snap_eq(trees.snapshot(twin_a), trees.snapshot(twin_b)):
+            try:
+                same = (twin_a == twin_b)
+                ba, bb = twin_a.to_bytes(), twin_b.to_bytes()
+            except Exception:
+                same = ba = bb = None
+
+            if same is False:
+                st.violation('identical-trees-unequal',
+                             'a tree listing one change object twice vs two '
+                             'equal changes', case)
+            elif ba != bb:
+                st.violation('equal-trees-serialise-differently',
+                             'a tree listing one change object twice '
+                             'serialises differently from one with two '
+                             'equal changes', case)
+
     # history: b has now been compared (and perhaps serialised); edit it in
     # place without changing the number of sections and look again
     edits = []
